@@ -118,13 +118,18 @@ CHECKS = {
              "not by theorem; lupa, the Lua VM and sandbox files exercised not modelled; mw.ustring stubbed.",
         ref="DESIGN.md section 4 C08"),
     "C02": dict(
-        technique="Coq proof (stack machine = declarative nesting model for every heading/rule/content sequence) + tree correspondence; list clause by reference oracle",
+        technique="Coq proofs (section machine and list machine = declarative nesting models for every sequence) + tree correspondence",
         text="Theorem c02_sections_follow_nesting_model: for every document of headings, content blocks and rules the stack "
              "machine shaped like subtitle_start_fn/hline_fn produces exactly the tree of the right-to-left 'a section absorbs "
              "what follows' specification (proved via the attach bridge). The model is tied to parser.py by comparing the "
              "section/rule/paragraph structure of real parse trees (exhaustive heading sequences to length 3-4, random to 12 "
-             "blocks, 17 balanced fillers) inside Coq. PARTIAL: list nesting (exhaustive marker sequences of depth<=3 to 2-3 "
-             "lines, random to depth 4) is decided by the reference written from the property text, not by a theorem.",
+             "blocks, 17 balanced fillers) inside Coq. Theorems c02_lists_follow_nesting_model and c02_depth_correction_is_idle: for every "
+             "block of list lines the machine shaped like list_fn + pop_until_nth_list on the parser stack builds exactly the "
+             "forest of the declarative model (an item takes the following lists whose marker properly extends its own, then "
+             "continues an equal-marker list, else starts its own), and pop_until_nth_list never pops on reachable stacks; tied "
+             "to parser.py by comparing the list forest of real trees with Model.Lists.parse (exhaustive marker sequences of "
+             "depth<=3 to 2-3 lines, marker walks, random). PARTIAL: the interleaving of list blocks with other content is "
+             "decided by the reference written from the property text.",
         note=TRUST + "tokenizer and inline handlers are glue under the diff.",
         ref="DESIGN.md section 4 C02"),
     "C01": dict(
